@@ -32,15 +32,39 @@ type Val struct {
 // Mem is a version of the heap.
 type Mem struct {
 	arr   map[string]string
+	wm    map[string]string // per site: value of the allocation pointer when the array version was created
 	alloc string
 }
 
 func (m *Mem) clone() *Mem {
-	n := &Mem{arr: make(map[string]string, len(m.arr)), alloc: m.alloc}
+	n := &Mem{arr: make(map[string]string, len(m.arr)), wm: make(map[string]string, len(m.wm)), alloc: m.alloc}
 	for k, v := range m.arr {
 		n.arr[k] = v
 	}
+	for k, v := range m.wm {
+		n.wm[k] = v
+	}
 	return n
+}
+
+// putArr installs a new version of a site's array; pointers stored in it were valid at the current allocation pointer.
+func (u *Unit) putArr(m *Mem, site, term string) {
+	m.arr[site] = term
+	if m.wm == nil {
+		m.wm = map[string]string{}
+	}
+	m.wm[site] = m.alloc
+}
+
+// limitOf is the allocation watermark below which every pointer stored in the current version of site lies.
+func (u *Unit) limitOf(m *Mem, site string) string {
+	if _, written := m.arr[site]; !written {
+		return u.entryMem.alloc
+	}
+	if w, ok := m.wm[site]; ok {
+		return w
+	}
+	return m.alloc
 }
 
 type Obligation struct {
@@ -175,15 +199,18 @@ func (u *Unit) arr(m *Mem, site, sort string) string {
 
 func (u *Unit) setArr(m *Mem, site, sort, term string) {
 	u.sortOfSite(site, sort)
-	m.arr[site] = u.ctx.def("M:"+site, SArr(SInt, sort), term)
+	u.putArr(m, site, u.ctx.def("M:"+site, SArr(SInt, sort), term))
 }
 
 // typingFact returns the well-typedness assumption for a loaded/havocked value.
-func (u *Unit) typingFact(v Val, m *Mem) string {
+func (u *Unit) typingFact(v Val, m *Mem) string { return u.typingFactLim(v, func(int) string { return m.alloc }) }
+
+func (u *Unit) typingFactLim(v Val, limit func(leaf int) string) string {
 	ls := leavesOf(v.T, "elem")
 	var fs []string
 	for i, l := range ls {
 		t := v.S[i]
+		m := struct{ alloc string }{limit(i)}
 		switch l.Kind {
 		case "ptr":
 			sz := 1
@@ -249,12 +276,13 @@ func (u *Unit) load(st *state, addr string, t types.Type, hint string, assume bo
 		v.S[i] = sel(u.arr(st.mem, l.Site, l.Sort), add(addr, intLit(int64(l.Off))))
 	}
 	if assume && !u.noAssume {
-		if f := u.typingFact(v, st.mem); f != "true" {
+		lim := func(i int) string { return u.limitOf(st.mem, ls[i].Site) }
+		if f := u.typingFactLim(v, lim); f != "true" {
 			// name the loaded slots to keep the fact small
 			for i := range v.S {
 				v.S[i] = u.ctx.def("ld", ls[i].Sort, v.S[i])
 			}
-			u.ctx.assert("typing", implies(st.reach, u.typingFact(v, st.mem)))
+			u.ctx.assert("typing", implies(st.reach, u.typingFactLim(v, lim)))
 		}
 	}
 	return v
@@ -687,6 +715,21 @@ func (u *Unit) mergeMem(conds []string, mems []*Mem) *Mem {
 		out.arr[s] = pick(func(m *Mem) string { return u.arr(m, s, srt) }, SArr(SInt, srt), "Mj:"+s)
 	}
 	out.alloc = pick(func(m *Mem) string { return m.alloc }, SInt, "allocj")
+	out.wm = map[string]string{}
+	for _, s := range sl {
+		w := u.limitOf(mems[0], s)
+		same := true
+		for _, m := range mems[1:] {
+			if u.limitOf(m, s) != w {
+				same = false
+			}
+		}
+		if same {
+			out.wm[s] = w
+		} else {
+			out.wm[s] = out.alloc
+		}
+	}
 	return out
 }
 
@@ -715,6 +758,9 @@ func (f *Frame) run(st *state) (ret *state, results []Val) {
 		mems = append(mems, r.mem)
 	}
 	out := &state{reach: f.u.ctx.def(f.prefix+".ret", SBool, or(conds...)), mem: f.u.mergeMem(conds, mems)}
+	if len(mems) > 1 && out.mem.alloc != f.entry.alloc {
+		f.u.ctx.assert("alloc-mono", le(f.entry.alloc, out.mem.alloc))
+	}
 	nres := len(f.rets[0].vals)
 	for j := 0; j < nres; j++ {
 		v := f.rets[len(f.rets)-1].vals[j]
@@ -772,6 +818,20 @@ func (f *Frame) block(b *ssa.BasicBlock, entry *state) {
 		}
 		reach := u.ctx.def(fmt.Sprintf("%s.reach%d", f.prefix, b.Index), SBool, or(conds...))
 		st = &state{reach: reach, mem: u.mergeMem(conds, mems)}
+		if len(preds) > 1 {
+			// dominance lemma: reaching b implies having left its immediate dominator (spares the solver the
+			// case analysis over the diamond-shaped definitions of the reachability predicates)
+			if id := b.Idom(); id != nil && f.outs[id] != nil && f.outs[id].reach != "true" {
+				u.ctx.assert("dom", implies(reach, f.outs[id].reach))
+			}
+		}
+		if len(preds) > 1 {
+			// the allocation pointer only grows: relate the merged value to the immediate dominator's (a lemma that
+			// spares the solver a case split over every branch)
+			if id := b.Idom(); id != nil && f.outs[id] != nil && f.outs[id].mem.alloc != st.mem.alloc {
+				u.ctx.assert("alloc-mono", le(f.outs[id].mem.alloc, st.mem.alloc))
+			}
+		}
 		// phis (entering values)
 		for _, ins := range b.Instrs {
 			phi, ok := ins.(*ssa.Phi)
